@@ -50,6 +50,7 @@ def check_commit_stats(sc, sha):
         sc.violation("C19/numstat", commit=sha, stats=(st["git_diff_added_lines"], st["git_diff_deleted_lines"]), own=(add, dele))
     acc = 0
     nsess = 0
+    note = None
     if len(parents) <= 1:
         added = sc.diff_added(sha)
         try:
@@ -74,9 +75,20 @@ def check_commit_stats(sc, sha):
     if st["ai_additions"] > st["git_diff_added_lines"]:
         sc.violation("C19/ai_additions>added", commit=sha, st={k: st[k] for k in ("ai_additions", "git_diff_added_lines")})
     tb = st.get("tool_model_breakdown", {})
+    # finding D63 (by call site): the commit-level mixed_additions is capped at (added - accepted) while the per-tool figures are not;
+    # the cap is active exactly when the prompt records' overridden-line counters add up to more than that
+    cap_active = False
+    try:
+        overridden = sum(int(p.get("overriden_lines", 0)) for p in (note.meta or {}).get("prompts", {}).values()) if (len(parents) <= 1 and note) else 0
+        cap_active = overridden > max(0, st["git_diff_added_lines"] - st["ai_accepted"])
+    except (AttributeError, TypeError, ValueError):
+        pass
     for k in ("ai_additions", "mixed_additions", "ai_accepted", "total_ai_additions", "total_ai_deletions"):
         if sum(t.get(k, 0) for t in tb.values()) != st[k]:
-            sc.violation("C19/breakdown-" + k, commit=sha, total=st[k], parts={n: t.get(k, 0) for n, t in tb.items()})
+            if cap_active and k in ("ai_additions", "mixed_additions") and not sc.profile.get("stats_breakdown_under_cap", True):
+                sc.stats["d63_instances(breakdown of %s exceeds the capped total)" % k] += 1
+                continue
+            sc.violation("C19/breakdown-" + k, commit=sha, total=st[k], parts={n: t.get(k, 0) for n, t in tb.items()}, cap_active=cap_active)
     return dict(acc=acc, parents=len(parents), nsess=nsess, added=add)
 
 
@@ -148,9 +160,32 @@ def run_case(case):
                 sc.do_edit(f=rng.choice(pool))
             if has_binary and rng.random() < 0.5:
                 sc.w.write_bytes("blob.bin", bytes(rng.randrange(256) for _ in range(200)) + b"\0")
-            k = rng.choice(["all", "all", "files", "hunks", "amend", "merge", "squash", "rebase"])
+            k = rng.choice(["all", "all", "files", "hunks", "amend", "merge", "squash", "rebase", "override-partial"])
             kinds.append(k)
-            if k == "files":
+            if k == "override-partial":
+                # two agents (different tools when multi_tool) add lines to two files; a person rewrites some of one agent's still
+                # uncommitted lines in the second file; only the first file is committed, the rest later: the overridden-lines counter
+                # of the prompt record is larger than what this commit's diff leaves room for
+                tr = [x for x in files if x in sc.tracked()]
+                if len(tr) >= 2 and len(sc.sessions) >= 2:
+                    f1, f2 = rng.sample(tr, 2)
+                    s1, s2 = rng.sample(sc.sessions, 2)
+                    for who in (s1, s2):
+                        sc.do_edit(author=who, f=f1, kinds=["ins"])
+                        sc.do_edit(author=who, f=f2, kinds=["ins"])
+                    lines = sc.read(f2)
+                    mine = [i for i, l in enumerate(lines) if sc.ledger.expected(l) == s1 and not sc.ledger.is_decoy(l)][:rng.choice([1, 2, 3])]
+                    if mine:
+                        if f2 in sc.pending_initial_files() and not sc.profile["human_edit_on_pending_unreported"]:
+                            sc.w.human_ckpt([f2])
+                        for i in mine:
+                            lines[i] = sc.fresh("human", hostile=False)
+                        sc.write(f2, lines)
+                        sc.log.append(["edit", f2, "human", "override %d lines of %s" % (len(mine), s1)])
+                    sc.g("add", "--", f1); sc.g("commit", "-q", "-m", "first file only")
+                    sc.ops.append("commit:override-partial")
+                sc.commit_all("rest")
+            elif k == "files":
                 sc.op_partial_commit()
             elif k == "hunks":
                 sc.op_hunk_commit()
